@@ -5,8 +5,11 @@ import (
 	"fmt"
 	"os"
 	"path/filepath"
+	"strings"
 	"testing"
 	"time"
+
+	"pgregory.net/rapid"
 
 	"verif/ev"
 	"verif/rp"
@@ -19,6 +22,7 @@ var rules = map[string]string{
 	"C09": "generated spokfiles of 1-4 tasks x 1-4 commands, each command appending an opaque marker to a side-effect log and exiting with 0 or a status from {1,2,3,42,126,127,255}, failing commands at any position in requested tasks or dependencies, ~70% of tasks with a file dependency; run under one of {plain, --quiet, --json, --force, --quiet --force, --json --force}, then a second plain unforced run. Oracle: the set F of tasks with an executed failing command is read from the log; F non-empty => exit != 0 and stderr names a task of F; second run never reports a task of F skipped, never succeeds as a whole, and re-executes a sole failing task. Non-trivial: a failure observed and (several tasks, or the failing command is not the first, or a non-plain flag); distinct by (spokfile, arguments)",
 	"C20": "generated spokfiles (1-5 tasks incl. 'default' with probability 1/3, 0-4 commands each appending a marker to a log and printing known payloads to stdout and stderr, 0-5 variables used through {{.X}}, docstrings or none, file dependencies so that repeated runs skip) x sequences of 1-5 actions from {--json tasks, --quiet tasks, --show, --vars, no arguments}; oracle: the log is the ground truth of execution; --json is one document listing exactly the tasks of the run in execution order with skipped flags, interpolated command text, exact stdout/stderr/status; --quiet stdout empty; --show one sorted row per task with docstring; --vars one row per variable; no arguments = default task or the listing. Non-trivial: >= 2 tasks with commands, or a report containing a skipped task; distinct by (spokfile, actions)",
 	"C19": "random project trees (nested directories, with/without .gitignore, .env, an existing .spok/) x spokfiles that are valid (generated structure in a random layout, side-effect-free commands), lexer errors, parser errors, load errors (undefined builtin, duplicate task, failing exec, bad template) or absent x every subset of {--show,--vars,--fmt,--init,--force,--quiet,--json,--debug} plus 0-2 task names (defined or not), from the project root or a nested directory; oracle: snapshot of the sandbox HOME before/after — changed paths must lie in the set the action permits (.spok next to the spokfile; --init: new cwd/spokfile and appended cwd/.gitignore, never over an existing spokfile; --fmt: the spokfile only, only when it parses and loads, and then equal to the formatter's output). Non-trivial: --fmt or --init given, or the spokfile is invalid/absent, or cwd is nested; distinct by case",
+	"C10": "binary-level histories over the C01 universe (1-3 tasks with literal / glob / task dependencies; write, revert, delete, cache removal, runs with --force or an injected failing command) with faults: kill -9 of the spok process from inside any task position of the run order (control files read by the task body), and truncation of the cache file to a prefix (0, 1, fractions, len-1; every 7th (quick) / every (thorough) byte length for two fixed programs, each followed by six continuations of edits/reverts and an unforced run). The side-effect log is the ground truth (a task completed iff its end marker was logged). Oracle: no task is skipped unless its dependency snapshot equals the one of its last logged completion; after a fault a run behaves normally or fails with an error that mentions the cache; a Go panic is a violation. Non-trivial: a fault followed by a file action and a run in which some task's inputs differ from its last success; distinct by history",
 	"C12": "random project trees (files inside and outside declared outputs, nested directories, pre-existing and missing outputs, an optional existing .spok/, bystander files beside and above the project) x spokfiles declaring up to 5 outputs of each kind: literal (incl. '', '.', './', '..', '../..', 'spokfile', directories, missing paths), named by variables (strings and join(...), incl. '', '.', join('..')), globs (matching several files, nested, nothing); with probability 1/4 a task named clean. `spok --clean` runs in the uid-dropped sandbox; oracle: whole-sandbox snapshot before/after — frame condition, protected set (project dir, ancestors, spokfile), completeness when spok exits 0. Non-trivial: a designated path exists before and a non-designated file exists in the project; distinct by (tree, spokfile)",
 	"C13": "generated variable sets (string values over printable ASCII without quotes incl. blanks, $, {, }, {{, #, backslash; exec(printf ...) with padded / multi-line / empty output and failing exec; join of 0-4 segments incl. '.', '..', '', absolute) with names that collide with the ambient environment, a generated .env, both or neither; one task printing each variable through {{.NAME}} and through $NAME, run with --json from the project root or a nested directory in the sandbox; oracle: direct textual substitution, an independent path normaliser, the harness's own knowledge of what printf prints. Non-trivial: a variable whose name is also set, differently, in the ambient environment or .env and is read through $NAME; distinct by (spokfile, environment, cwd)",
 	"C17": "every directory chain of depth <= 3 (quick) / 4 (thorough) where each level independently holds {nothing, an entry sorting before and/or after 'spokfile', a regular spokfile (alone or after an earlier entry), a directory named spokfile (empty or holding a regular spokfile)} and child directories named 'd' or 't' x every start level x stop in {each level, an unrelated directory}; file.Find is called in a watchdogged shard (10 s stall limit, normal < 1 ms) and compared with an Lstat walk; plus `spok --show` from nested directories in the sandbox. Non-trivial: the answer is at another level than start, or there is none; distinct by triple",
@@ -74,6 +78,10 @@ func TestPlan(t *testing.T) {
 		binShards("^TestReport$", 16, 40, 16, 1000)
 	case "C19":
 		binShards("^TestWrite$", 16, 80, 16, 1500)
+	case "C10":
+		p.Level = "fault_enumeration"
+		binShards("^TestKill$", 16, 25, 16, 350)
+		p.Shards = append(p.Shards, ev.ShardSpec{Name: "prefixes-0", Test: "^TestKillPrefixes$", TimeoutS: 3600})
 	case "C12":
 		binShards("^TestClean$", 16, 60, 16, 1300)
 	case "C17":
@@ -86,6 +94,12 @@ func TestPlan(t *testing.T) {
 			sh[i].TimeoutS = 1200
 		}
 		p.Shards = append(p.Shards, sh...)
+		nb, cb := 4, 15
+		if ev.Thorough() {
+			nb, cb = 8, 60
+		}
+		bs := ev.RapidShards("binary", "^TestFindBinary$", nb, cb, nil)
+		p.Shards = append(p.Shards, bs...)
 	}
 	if err := ev.WritePlan(p); err != nil {
 		t.Fatal(err)
@@ -172,6 +186,12 @@ func TestReplay(t *testing.T) {
 	}
 	var f *rp.Fail
 	switch v.Kind {
+	case "findbin":
+		var c FindCase
+		if err := json.Unmarshal(raw, &c); err != nil {
+			t.Fatal(err)
+		}
+		f = execFindBinary(nil, newBox(t), c)
 	case "find", "find-inflight":
 		var c FindCase
 		if err := json.Unmarshal(raw, &c); err != nil {
@@ -181,7 +201,13 @@ func TestReplay(t *testing.T) {
 		if err := c.build(base); err != nil {
 			t.Fatal(err)
 		}
-		f = execFind(nil, base, c)
+		done := make(chan *rp.Fail, 1)
+		go func() { done <- execFind(nil, base, c) }()
+		select {
+		case f = <-done:
+		case <-time.After(15 * time.Second):
+			t.Fatalf("file.Find did not terminate within 15 s on %+v [process-stalled]", c)
+		}
 	default:
 		f = replayOther(t, v, raw)
 	}
@@ -210,6 +236,12 @@ func replayOther(t *testing.T, v ev.Violation, raw []byte) *rp.Fail {
 			t.Fatal(err)
 		}
 		return execWrite(nil, newBox(t), c)
+	case "kill":
+		var c KillCase
+		if err := json.Unmarshal(raw, &c); err != nil {
+			t.Fatal(err)
+		}
+		return execKill(nil, newBox(t), c)
 	case "clean":
 		var c CleanCase
 		if err := json.Unmarshal(raw, &c); err != nil {
@@ -224,6 +256,85 @@ func replayOther(t *testing.T, v ev.Violation, raw []byte) *rp.Fail {
 		return execVars(nil, newBox(t), c)
 	}
 	t.Fatalf("unknown replay kind %q", v.Kind)
+	return nil
+}
+
+// TestFindBinary: the same triples through the real CLI (`spok --show` with cwd = start, HOME = stop).
+func TestFindBinary(t *testing.T) {
+	s := ev.Open(t, "C17")
+	b := newBox(t)
+	rp.Check(t, s, "findbin", func(rt *rapid.T) FindCase {
+		d := rapid.IntRange(1, 4).Draw(rt, "depth")
+		c := FindCase{}
+		for i := 0; i < d; i++ {
+			c.Cfg = append(c.Cfg, rapid.IntRange(0, nLevelCfg-1).Draw(rt, "cfg"))
+			if i+1 < d {
+				c.Child = append(c.Child, rapid.SampledFrom([]string{"d", "t"}).Draw(rt, "child"))
+			}
+		}
+		c.Start = rapid.IntRange(0, d-1).Draw(rt, "start")
+		c.Stop = rapid.IntRange(-1, d-1).Draw(rt, "stop")
+		return c
+	}, func(c FindCase) *rp.Fail {
+		s.Class("space_binary")
+		return execFindBinary(s, b, c)
+	})
+}
+
+func execFindBinary(s *ev.Shard, b *sandbox.Box, c FindCase) *rp.Fail {
+	if err := b.Reset(); err != nil {
+		return &rp.Fail{Sig: "harness", Msg: err.Error()}
+	}
+	base := filepath.Join(b.Home, "chain")
+	if err := c.build(base); err != nil {
+		return &rp.Fail{Sig: "harness", Msg: err.Error()}
+	}
+	if err := b.Own(); err != nil {
+		return &rp.Fail{Sig: "harness", Msg: err.Error()}
+	}
+	dirs := c.dirs(base)
+	stop := filepath.Join(base, "unrelated")
+	if c.Stop >= 0 {
+		stop = dirs[c.Stop]
+	}
+	res := b.Run(dirs[c.Start], []string{"HOME=" + stop}, 20*time.Second, "--show")
+	size := len(c.Cfg)*3 + c.Start
+	desc := fmt.Sprintf("chain %v children %v: `spok --show` with cwd = level %d and HOME = %s", c.Cfg, c.Child, c.Start, rel(base, stop))
+	if res.TimedOut {
+		return &rp.Fail{Sig: "process-stalled", Size: size, Msg: desc + ": did not terminate within 20 s"}
+	}
+	out := sandbox.Strip(res.Stdout)
+	found := ""
+	for _, l := range strings.Split(out, "\n") {
+		if strings.HasPrefix(l, "Tasks defined in ") {
+			found = strings.TrimSuffix(strings.TrimPrefix(l, "Tasks defined in "), ":")
+		}
+	}
+	nearest := func(lowest int) (string, bool) {
+		for l := c.Start; l >= lowest; l-- {
+			if p, ok := regularSpokfile(dirs[l]); ok {
+				return p, true
+			}
+		}
+		return "", false
+	}
+	within := c.Stop >= 0 && c.Stop <= c.Start
+	if within {
+		want, ok := nearest(c.Stop)
+		switch {
+		case ok && (res.Exit != 0 || found != want):
+			return &rp.Fail{Sig: "spokfile-missed", Size: size, Msg: fmt.Sprintf("%s: nearest spokfile is %s, spok used %q (exit %d, stderr %q)", desc, rel(base, want), rel(base, found), res.Exit, sandbox.Strip(res.Stderr))}
+		case !ok && res.Exit == 0:
+			return &rp.Fail{Sig: "found-above-stop", Size: size, Msg: fmt.Sprintf("%s: no spokfile between cwd and HOME, yet spok used %q", desc, rel(base, found))}
+		}
+	} else if res.Exit == 0 {
+		if want, ok := nearest(0); !ok || found != want {
+			return &rp.Fail{Sig: "wrong-spokfile", Size: size, Msg: fmt.Sprintf("%s: spok used %q, not the nearest spokfile above cwd", desc, rel(base, found))}
+		}
+	}
+	if s != nil {
+		s.NonTrivial("bin" + fmt.Sprint(c.Cfg, c.Child, c.Start, c.Stop))
+	}
 	return nil
 }
 
@@ -260,6 +371,83 @@ func TestWrite(t *testing.T) {
 	})
 }
 
+func TestKill(t *testing.T) {
+	s := ev.Open(t, "C10")
+	b := newBox(t)
+	rp.Check(t, s, "kill", genKill, func(c KillCase) *rp.Fail {
+		if s.WantSample() {
+			s.Sample(map[string]any{"spokfile": c.source(), "steps": c.Steps})
+		}
+		return execKill(s, b, c)
+	})
+}
+
+// TestKillPrefixes: for fixed programs, every kill position and every byte prefix of the
+// cache file a run wrote, each followed by every one-step continuation and an unforced run.
+func TestKillPrefixes(t *testing.T) {
+	s := ev.Open(t, "C10")
+	b := newBox(t)
+	progs := [][]KTask{
+		{{Name: "A", Files: []string{"f1.txt"}}, {Name: "B", Files: []string{"f2.txt"}}},
+		{{Name: "A", Files: []string{"f1.txt"}, Deps: []string{"B"}}, {Name: "B", Globs: []string{"*.txt"}}},
+	}
+	init := map[string]string{"f1.txt": "0", "f2.txt": "0"}
+	run := func(tasks ...string) KStep { return KStep{Op: "run", Tasks: tasks, CutAbs: -1} }
+	w := func(f, c string) KStep { return KStep{Op: "write", File: f, Content: c, CutAbs: -1} }
+	conts := [][]KStep{{}, {w("f1.txt", "1")}, {w("f1.txt", "0")}, {w("f2.txt", "1")}, {w("f1.txt", "1"), w("f1.txt", "0")}, {w("extra.txt", "9")}}
+	seen := map[string]bool{}
+	one := func(c KillCase) {
+		s.Eval()
+		if f := execKill(s, b, c); f != nil {
+			if s.IsKnown(f.Sig) {
+				s.Known(f.Sig, c)
+				return
+			}
+			if !seen[f.Sig] {
+				seen[f.Sig] = true
+				s.Violation("kill", f.Sig, f.Msg, f.Size, c)
+			}
+		}
+	}
+	step := 1
+	if !ev.Thorough() {
+		step = 7 // quick: every 7th prefix length; thorough: every byte
+	}
+	for pi, prog := range progs {
+		prefix := []KStep{run("A", "B"), w("f1.txt", "1")}
+		// kill positions: in A, in B
+		for _, victim := range []string{"A", "B"} {
+			for _, cont := range conts {
+				steps := append(append([]KStep(nil), prefix...), KStep{Op: "run", Tasks: []string{"A", "B"}, Kill: victim, CutAbs: -1})
+				steps = append(steps, cont...)
+				steps = append(steps, run("A", "B"))
+				c := KillCase{Tasks: prog, Init: init, Steps: steps}
+				if pi == 0 && victim == "A" && len(cont) == 0 {
+					s.Sample(map[string]any{"spokfile": c.source(), "steps": c.Steps})
+				}
+				s.Class("enumerated_kill_position")
+				one(c)
+			}
+		}
+		// every byte prefix of the cache file after the second run (length probed once: <= 200 bytes)
+		for k := 0; k < 200; k += step {
+			for ci, cont := range conts {
+				if !ev.Thorough() && ci%2 == 1 {
+					continue
+				}
+				steps := append(append([]KStep(nil), prefix...), run("A", "B"), KStep{Op: "truncate", CutAbs: k})
+				steps = append(steps, cont...)
+				steps = append(steps, run("A", "B"))
+				s.Class("enumerated_cache_prefix")
+				one(KillCase{Tasks: prog, Init: init, Steps: steps})
+			}
+		}
+	}
+	if s.Failed() {
+		t.Fatal("violations recorded")
+	}
+}
+
 func TestClean(t *testing.T) {
 	s := ev.Open(t, "C12")
 	b := newBox(t)
@@ -282,5 +470,3 @@ func TestVars(t *testing.T) {
 		return execVars(s, b, c)
 	})
 }
-
-var _ = fmt.Sprint
